@@ -94,7 +94,7 @@ struct Scn {
     crc_sweep: Option<(bool, u8)>,
 }
 
-const N_CRC_SWEEP_QUICK: u64 = 32;
+const N_CRC_SWEEP_QUICK: u64 = 512;
 
 fn default_mode() -> String {
     "release".into()
@@ -473,10 +473,13 @@ impl Check for C03Check {
             if index >= base {
                 let k = index - base;
                 // thorough: all 256 top bytes of both words (2 x 2^32 values); quick: every 16th top byte
-                let (payload_word, top) = match tier {
-                    Tier::Quick => (k % 2 == 0, ((k / 2) * 16 + 5) as u8),
-                    Tier::Thorough => (k % 2 == 0, (k / 2) as u8),
-                };
+                // all 256 top bytes of both words = 2 x 2^32 values. (In the quick tier the second build
+                // mode repeats only every 16th slice.)
+                let (payload_word, top) = (k % 2 == 0, (k / 2) as u8);
+                if tier == Tier::Quick && mode == "relchk" && (k / 2) % 16 != 5 {
+                    let scn = Scn { mode: mode.into(), device_id: b[0].device_id, packet_seq: 0, channel_seq: 0, chip: 0, flags: 0, chunk_id: 0, payload: PayloadSpec { len: 1, fill: "zero".into(), seed: 0 }, sweep: None, faults: vec![], crc_sweep: None };
+                    return serde_json::to_value(scn).unwrap();
+                }
                 let scn = Scn {
                     mode: mode.into(),
                     device_id: b[0].device_id,
